@@ -318,10 +318,23 @@ where
     let mut ann = vec![];
     let mut cc = codec.clone();
     cc.encode_header(&Header { src: asker, src_incarnation: gen_u(g, 16) as u16, dst: me, message: Message::Announce }, &mut ann).unwrap();
+    // the longest header this instance can be asked to build (all-maximal destination)
+    let big_len = {
+        let mut hb = vec![];
+        let mut c2 = codec.clone();
+        let _ = c2.encode_header(&Header { src: me, src_incarnation: 0, dst: SId { x8: 255, x16: 65535, x32: u32::MAX, x64: u64::MAX }, message: Message::Announce }, &mut hb);
+        hb.len()
+    };
     let sizes: Vec<usize> = {
         let mut v: Vec<usize> = (ann.len().max(40)..ann.len().max(40) + 64).collect();
         for _ in 0..12 {
             v.push(90 + g.below(700) as usize);
+        }
+        // sizes just below the longest header: a send to such a destination fails, sends to shorter ones work
+        for k in 1..=6usize {
+            if big_len > 16 + k {
+                v.push(big_len - k);
+            }
         }
         v
     };
